@@ -569,6 +569,19 @@ def contract_handler(c):
     heap signature: the same call denotes the same value everywhere, also under quantifiers, where the contract
     is assumed universally over the variables bound by the enclosing quantifiers."""
     def h(eng, st, recv, args, kwargs, node):
+        # the callee's spec expressions are evaluated with the callee's own summaries / spec names
+        saved_ov, saved_names = eng.overrides, eng.extra_names
+        eng.overrides = dict(saved_ov)
+        eng.overrides.update(c.overrides)
+        eng.extra_names = dict(saved_names)
+        eng.extra_names.update(c.extra_names)
+        try:
+            outs = list(h_inner(eng, st, recv, args, kwargs, node))
+        finally:
+            eng.overrides, eng.extra_names = saved_ov, saved_names
+        yield from outs
+
+    def h_inner(eng, st, recv, args, kwargs, node):
         names = list(c.params)
         vals = ([recv] if (recv is not None and not isinstance(recv, VClass)) else []) + list(args)
         frame = {}
